@@ -258,6 +258,9 @@ Proof.
       injection H as <-; (eapply update_at_erase; [exact Eb |]); first [apply region_erase; exact Hne | exact (region_erase _ b 0 (length b) Hne)]).
     destruct (any_in [ND ACCData; NS ACCEnterData] (walks b)); [discriminate H |].
     injection H as <-. eapply update_at_erase; [exact Eb |]. apply insert_erase.
+    destruct p as [| i0 p0]; [| discriminate H].
+    destruct (mem (NLeaf LCodeBlock) (rkinds r)); [discriminate H |].
+    injection H as <-. destruct (mem (NS ACCRoutine) (map kind_of r)); reflexivity.
 Qed.
 
 Theorem run_erase_ : forall ops r r', run ops r = Some r' -> rerase r' = rerase r.
